@@ -4,7 +4,7 @@ import pipeline as P
 from peg import dump_groups
 
 DEFAULT_OPT = dict(memo=False, debug=False, stats=True, maxexpr=0, allowinv=False, recover=True, fname="f",
-                   errblks=[], panicblk=0, entry="", entryrule=1, initx=-1, initg=0, via="", rev=False, initcl=-1, sharestats=False, samemsg=False,
+                   errblks=[], panicblk=0, entry="", entryrule=1, initx=-1, initg=0, via="", rev=False, initcl=-1, sharestats=False, samemsg=False, sandwich=False,
                    decoy=False)      # decoy: every option is given twice, first with another value (the later one decides)
 
 
